@@ -31,9 +31,13 @@ def _run(ctx, func):
 def evaluate(pid, ctx):
     out = []
     seen = set()
-    for func, names in PROPS[pid]['rules']:
+    for entry in PROPS[pid]['rules']:
+        func, names = entry[0], entry[1]
+        keys = entry[2] if len(entry) > 2 else None
         for i in _run(ctx, func):
             if names is not None and i.rule not in names and not i.rule.startswith('analysis'):
+                continue
+            if keys is not None and not any(k in i.key for k in keys) and i.verdict != 'undecided':
                 continue
             if i.ident() in seen:
                 continue
@@ -70,7 +74,7 @@ prop('C02', COMMON +
      'and a suspended job is put back at the front (QD-queue, TOK-requeue); a closure runs ahead of the list only when the queue was claimed Idle and seen empty in the same critical section (TR-immediate, TR-sibling).',
      ['append under the lock before the call returns (ORD-C02-append)', 'FIFO discipline (QD-queue)', 'immediate execution only when Idle and empty (TR-immediate, TR-sibling)', 'suspended job returns to the front (TOK-requeue)'],
      ['the real-time order of two calls on different threads (it is the linearisation order of the core mutex)', 'every runner path preserving order is derived from QD + TOK-requeue'],
-     [(RO.c02_append, None), (RQ.qd_queue, None), (RP.tr_immediate, None), (RP.tr_sibling, None), (RP.tok_requeue, None)])
+     [(RO.c02_append, None), (RQ.qd_queue, None), (RP.tr_immediate, None), (RP.tr_sibling, None, ['sync']), (RP.tok_requeue, None)])
 
 prop('C03', COMMON +
      'Decided: an acquired token is always released or handed on (TOK-leak, globally PA-stuck); every owner release to Idle is followed by reschedule_queue or made under the queue-empty test (TOK-resched); '
@@ -89,7 +93,7 @@ prop('C04', COMMON +
      ['strategy chosen atomically; waits only when the queue is owned or parked (TR-defer)', 'blocked caller cannot miss its wake-up (CV1, CV2, QD-waiters)', 'caller runs the queue itself when woken and it is claimable (ORD-C04-steal)',
       'own result, after completion (ORD-C04-result, UA-wait)', 'no lock-order cycle, no blocking/foreign code under an internal lock (LO, BL)', 'caller-side execution holds the token (TOK-exec)'],
      ['termination of the operations ahead; OS fairness', '"from inside a job of a different Desync" is derived from BL (no internal lock is held while a job runs)'],
-     [(RP.tr_defer, None), (RL.cv, None), (RQ.qd_wake_blocked, None), (RO.c04_steal, None), (RO.c04_result, None), (RU.ua_wait, None), (RL.lo, None), (RL.bl, None), (RL.lock_classes, None), (RP.tok_exec, None), (RP.tok_resched, None)])
+     [(RP.tr_defer, None, ['sync']), (RL.cv, None), (RQ.qd_wake_blocked, None), (RO.c04_steal, None), (RO.c04_result, None), (RU.ua_wait, None), (RL.lo, None), (RL.bl, None), (RL.lock_classes, None), (RP.tok_exec, None), (RP.tok_resched, None)])
 
 prop('C05', COMMON +
      'Decided: Desync::drop performs a final sync on its own queue on every path and frees the value inside that job (ORD-C05-drop); freed nowhere else, not duplicable (UA-free); every other use of the pointer is a job '
@@ -104,7 +108,7 @@ prop('C06', COMMON +
      'and a queue parked for a polling task is offered to and accepted by the pool (PARK-wake); the two queue wakers agree on the states both handle (TR-sibling); a job that returned Pending is back on the queue before the queue is parked (TOK-requeue).',
      ['every parked configuration is resumable by waker/claimer transitions (PA-wake)', 'wakers call the matching resume action; pool takes over WaitingForPoll (PARK-wake)', 'wakers agree on Running and WaitingForWake (TR-sibling)', 'requeue before parking (TOK-requeue)'],
      ['"for every position of the wake-up" as executions', 'futures that break the waker contract'],
-     [(RP.pa_rules, {'PA-wake', 'PA'}), (RP.park_wake, None), (RP.tr_sibling, None), (RP.tok_requeue, None)])
+     [(RP.pa_rules, {'PA-wake', 'PA'}), (RP.park_wake, None), (RP.tr_sibling, None, ['WakeQueue/WakeThread']), (RP.tok_requeue, None)])
 
 prop('C07', COMMON +
      'Decided: result and waker of a scheduler future live under one mutex with check-and-register / set-and-take atomic (LW1, LW2; the owner\'s unconditional stores are justified by LW-owner); the job signals once, after its operation completed, '
@@ -113,7 +117,7 @@ prop('C07', COMMON +
      ['check-and-register / set-and-take atomic (LW1, LW2, LW-owner)', 'signal once, after completion (ORD-C07-signal)', 'job owned by the queue (ORD-C07-own)', 'poll never defers on Idle/Pending (TR-defer)',
       'abandoned poll-side drain is taken over (PARK-wake)', 'poll-side drain holds and releases the token (TOK-exec, TOK-leak)'],
      ['equality of the delivered value with what the user closure computed', 'ordering of sibling polls as executions'],
-     [(RW.lw, None), (RW.lw_owner, None), (RO.c07_signal, None), (RO.c07_own, None), (RP.tr_defer, None), (RP.park_wake, None), (RP.tok_exec, None), (RP.tok_leak, None)])
+     [(RW.lw, None, ['|waker']), (RW.lw_owner, None), (RO.c07_signal, None), (RO.c07_own, None), (RP.tr_defer, None, ['SchedulerFuture::poll']), (RP.park_wake, None), (RP.tok_exec, None), (RP.tok_leak, None, ['SchedulerFuture'])])
 
 prop('C08', COMMON +
      'Decided (ORD-C08): the two oneshot channels of future_sync are split so that the slot job holds the queue-ready sender and the task-finished receiver and the SyncFuture the opposite ends; the slot job announces, waits, then signals, also when cancelled; '
@@ -128,7 +132,7 @@ prop('C09', COMMON +
      'it runs its closure only from (Idle, queue empty), exactly like sync\'s immediate row (TR-immediate, TR-sibling); after the immediate run the queue goes Idle and is rescheduled (TOK-resched); no running state without a runner is reachable (PA-stuck).',
      ['Busy has written nothing (TOK-leak on try_sync)', 'never blocks (ORD-C09-noblock)', 'immediate only on Idle and empty (TR-immediate, TR-sibling)', 'Idle then reschedule_queue after the run (TOK-resched)', 'no ownerless running state (PA-stuck)'],
      ['"succeeds once quiescent" as a statement about time'],
-     [(RP.tok_leak, None), (RO.c09_noblock, None), (RP.tr_immediate, None), (RP.tr_sibling, None), (RP.tok_resched, None), (RP.pa_rules, {'PA-stuck', 'PA'}), (RP.tok_exec, None)])
+     [(RP.tok_leak, None), (RO.c09_noblock, None), (RP.tr_immediate, None), (RP.tr_sibling, None, ['try_sync']), (RP.tok_resched, None), (RP.pa_rules, {'PA-stuck', 'PA'}), (RP.tok_exec, None)])
 
 prop('C10', COMMON +
      'Decided: no scheduler-wide lock is held at any job-execution or blocking site (BL); the lock-order graph is acyclic (LO); a ready queue goes to a dormant thread or to a newly spawned one below the maximum, then scheduling is retried (ORD-C10-spawn); '
@@ -149,7 +153,7 @@ prop('C12', COMMON +
      'exactly one push per processed item after its future completed, closed only at end of input, end reported only when empty and closed (ORD-C12); wakers are woken outside the lock, no guard lives across an await (BL, AW).',
      ['consumer and back-pressure handshakes (LW1, LW2)', 'buffer discipline (QD-pending)', 'one output per input, in order, then end (ORD-C12)', 'wakes outside the lock, no guard across await (BL, AW)'],
      ['"for every buffer depth and interleaving" as executions', "depth 0 is outside the property's range"],
-     [(RW.lw, None), (RQ.qd_pending, None), (RO.c12, None), (RL.bl, None), (RL.aw, None)])
+     [(RW.lw, None, ['|notify#', '|notify<-', 'backpressure_release_notify', 'floor:notify:', 'floor:backpressure']), (RQ.qd_pending, None), (RO.c12, None), (RL.bl, None), (RL.aw, None)])
 
 prop('C13', COMMON +
      'Decided (ORD-C13): the resumer\'s sender and the future the suspending job waits on are the two ends of one channel, the resumer is handed out inside the job before waiting, the suspension is an ordinary future_desync job (so every token and ordering rule applies to it), '
@@ -180,7 +184,7 @@ prop('C16', COMMON +
      'a finished pipe releases its poll function (ORD-C11).',
      ['closed re-read before registering; drop sets closed and wakes in one section (LW1, LW2)', 'provenance of the waker woken under the lock (LW-prov, LO)', 'producer stops, references released (ORD-C16, ORD-C11)'],
      ['drop positions as executions'],
-     [(RW.lw, None), (RW.lw_prov, None), (RL.lo, None), (RO.c16, None), (RO.c11, None)])
+     [(RW.lw, None, ['notify_stream_closed']), (RW.lw_prov, None), (RL.lo, None), (RO.c16, None), (RO.c11, None)])
 
 prop('C17', COMMON +
      'Decided (ORD-C17): every in-crate path that adds a pool thread tests `threads.len() < max` and pushes inside one critical section of the threads lock; the unconditional Scheduler::spawn_thread has no in-crate caller; '
